@@ -351,9 +351,7 @@ Qed.
 
 Lemma in_remove_h k c l : In k (remove_h c l) <-> In k l /\ k <> c.
 Proof.
-  unfold remove_h. rewrite filter_In. split; intros [H1 H2]; split; auto.
-  - intros ->. rewrite Nat.eqb_refl in H2. discriminate.
-  - destruct (Nat.eqb_spec k c); auto. contradiction.
+  unfold remove_h. rewrite filter_In. destruct (Nat.eqb_spec k c); cbn; intuition congruence.
 Qed.
 
 (* handle status: only begin_close changes it *)
